@@ -273,16 +273,7 @@ Print Assumptions reversal_keeps_chaining_state.
 
 (** non-vacuity: with the Gallina AES-128-CMAC, a two-hop construction-direction segment chained
     as the theorem requires is forwarded by its first AS and delivered at its second *)
-From Sci Require Import Common.AesCmac.
-Definition ex_key1 : list N := repeat 7 16.
-Definition ex_key2 : list N := repeat 9 16.
-Definition ex_ts : N := 1700000000.
-Definition ex_mk (key : list N) (beta exp ci ce : N) : list N :=
-  [0; exp] ++ be_bytes 2 ci ++ be_bytes 2 ce ++ firstn 6 (aes_cmac key (mac_input beta ex_ts exp ci ce)).
-Definition ex_h1 : list N := ex_mk ex_key1 4660 63 0 5.
-Definition ex_h2 : list N := ex_mk ex_key2 (N.lxor 4660 (sigma ex_h1)) 63 8 0.
-Definition ex_view : list N :=
-  assemble 0 0 0 2 0 0 [[1; 0] ++ be_bytes 2 4660 ++ be_bytes 4 ex_ts] [ex_h1; ex_h2].
+From Sci Require Import Common.AesCmac StdPath.Examples.
 Example ex_walk :
   view_ok ex_view = true
   /\ (let '(b1, r1) := process_at_as (hop_mac_validator aes_cmac ex_key1) true ex_view in
